@@ -18,7 +18,7 @@ for l in open('/verif/properties.jsonl'):
     if p['id']!=ID: continue
     prop=f"Title: {p['title']}\nStatement: {p['statement']}\nQuantified over: {p['quantifier']['text']}\nRelevant files: {', '.join(p['anchors']['files'])}"
     open(f'{D}/property.txt','w').write(prop+"\n")
-    t=open('/tmp/seed/prompt.tmpl').read()
+    t=open('/verif/tools/seed_prompt.tmpl').read()
     used=[]
     for d in sorted(glob.glob(f'/verif/seeded/{ID}-*')):
         pd=os.path.join(d,'patch.diff')
